@@ -33,10 +33,10 @@ theorem C11_combine (a b : Option Rat) (r : Rat) (h : combine a b = some r) :
 
 /-- The two-stage computation: the first group against the system bounds, the second against the
 bounds shifted by the first group's stored target.  The sum of the stored targets is in bounds. -/
-theorem C11_two_stage (m1 m2 : Mgr) (h1 : MgrInv m1) (h2 : MgrInv m2) (p : Option Proposal)
+theorem C11_two_stage (m1 m2 : Mgr) (h1 : MgrInv m1) (h2 : MgrInv m2) (p p2 : Option Proposal)
     (sb : SystemBounds) (hd : C03_InDomain sb) (must : Bool) :
     C11_InBounds sb ((m1.calc p sb must).1.last.getD 0 +
-      (m2.calc none (shifted sb (m1.calc p sb must).1.last) must).1.last.getD 0) := by
+      (m2.calc p2 (shifted sb (m1.calc p sb must).1.last) must).1.last.getD 0) := by
   obtain ⟨_, c1⟩ := calc_cases m1 h1 p sb must
   generalize (m1.calc p sb must).1.last = l1 at *
   have env1 : ∀ t, l1 = some t → C03_Envelope sb t := by
@@ -48,8 +48,8 @@ theorem C11_two_stage (m1 m2 : Mgr) (h1 : MgrInv m1) (h2 : MgrInv m2) (p : Optio
     cases l1 with
     | none => exact hd
     | some t => exact shifted_inDomain sb hd t (env1 t rfl)
-  obtain ⟨_, c2⟩ := calc_cases m2 h2 none (shifted sb l1) must
-  generalize (m2.calc none (shifted sb l1) must).1.last = l2 at *
+  obtain ⟨_, c2⟩ := calc_cases m2 h2 p2 (shifted sb l1) must
+  generalize (m2.calc p2 (shifted sb l1) must).1.last = l2 at *
   have env2 : ∀ t, l2 = some t → C03_Envelope (shifted sb l1) t := by
     intro t ht
     rcases c2 with ⟨hn, _⟩ | ⟨b, hb, _⟩
@@ -92,26 +92,19 @@ theorem C11_two_stage (m1 m2 : Mgr) (h1 : MgrInv m1) (h2 : MgrInv m2) (p : Optio
         simp only at *
         grind
 
-theorem C11_twoStage_inv (m1 m2 : Mgr) (h1 : MgrInv m1) (h2 : MgrInv m2) (p : Option Proposal)
+theorem C11_twoStage_inv (m1 m2 : Mgr) (h1 : MgrInv m1) (h2 : MgrInv m2) (p p2 : Option Proposal)
     (sb : SystemBounds) (must : Bool) :
-    MgrInv (twoStage m1 m2 p sb must).1 ∧ MgrInv (twoStage m1 m2 p sb must).2.1 :=
-  ⟨(calc_cases m1 h1 p sb must).1, (calc_cases m2 h2 none _ must).1⟩
+    MgrInv (twoStage m1 m2 p p2 sb must).1 ∧ MgrInv (twoStage m1 m2 p p2 sb must).2.1 :=
+  ⟨(calc_cases m1 h1 p sb must).1, (calc_cases m2 h2 p2 _ must).1⟩
 
-theorem C11_twoStage_bounds (m1 m2 : Mgr) (h1 : MgrInv m1) (h2 : MgrInv m2) (p : Option Proposal)
+theorem C11_twoStage_bounds (m1 m2 : Mgr) (h1 : MgrInv m1) (h2 : MgrInv m2) (p p2 : Option Proposal)
     (sb : SystemBounds) (hd : C03_InDomain sb) (must : Bool) :
-    C11_InBounds sb ((twoStage m1 m2 p sb must).1.last.getD 0 + (twoStage m1 m2 p sb must).2.1.last.getD 0) :=
-  C11_two_stage m1 m2 h1 h2 p sb hd must
+    C11_InBounds sb ((twoStage m1 m2 p p2 sb must).1.last.getD 0 + (twoStage m1 m2 p p2 sb must).2.1.last.getD 0) :=
+  C11_two_stage m1 m2 h1 h2 p p2 sb hd must
 
 theorem C11_calc_inv (st : State) (h1 : MgrInv st.reg) (h2 : MgrInv st.op) (sb : SystemBounds) (p : Option (Proposal × Bool))
-    (must : Bool) : C11_Inv (calcPower st sb p must).1 := by
-  unfold calcPower C11_Inv
-  cases p with
-  | none => exact C11_twoStage_inv st.reg st.op h1 h2 none sb must
-  | some qb =>
-    obtain ⟨q, b⟩ := qb
-    cases b with
-    | false => exact C11_twoStage_inv st.reg st.op h1 h2 (some q) sb must
-    | true => exact (C11_twoStage_inv st.op st.reg h2 h1 (some q) sb must).symm
+    (must : Bool) : C11_Inv (calcPower st sb p must).1 :=
+  (C11_twoStage_inv st.op st.reg h2 h1 (opPart p) (regPart p) sb must).symm
 
 /-- One `_calculate_target_power`: whatever is sent is the sum of the stored targets and in bounds. -/
 theorem C11_calc_good (st : State) (h1 : MgrInv st.reg) (h2 : MgrInv st.op) (sb : SystemBounds)
@@ -122,31 +115,12 @@ theorem C11_calc_good (st : State) (h1 : MgrInv st.reg) (h2 : MgrInv st.op) (sb 
     (C03_InDomain sb → C11_InBounds sb r) := by
   have comm : ∀ a b : Rat, a + b = b + a := by intro a b; grind
   unfold calcPower at hr ⊢
-  cases p with
-  | none =>
-    simp only [] at hr ⊢
-    split at hr
-    · have hc := C11_combine _ _ r hr
-      refine ⟨⟨by rw [hc.1, comm], hc.2.symm⟩, fun hd => ?_⟩
-      rw [hc.1, comm]; exact C11_twoStage_bounds st.reg st.op h1 h2 none sb hd must
-    · cases hr
-  | some qb =>
-    obtain ⟨q, b⟩ := qb
-    cases b with
-    | false =>
-      simp only [] at hr ⊢
-      split at hr
-      · have hc := C11_combine _ _ r hr
-        refine ⟨⟨by rw [hc.1, comm], hc.2.symm⟩, fun hd => ?_⟩
-        rw [hc.1, comm]; exact C11_twoStage_bounds st.reg st.op h1 h2 (some q) sb hd must
-      · cases hr
-    | true =>
-      simp only [] at hr ⊢
-      split at hr
-      · have hc := C11_combine _ _ r hr
-        refine ⟨⟨by rw [hc.1, comm], hc.2.symm⟩, fun hd => ?_⟩
-        rw [hc.1]; exact C11_twoStage_bounds st.op st.reg h2 h1 (some q) sb hd must
-      · cases hr
+  simp only [] at hr ⊢
+  split at hr
+  · have hc := C11_combine _ _ r hr
+    refine ⟨⟨by rw [hc.1, comm], hc.2.symm⟩, fun hd => ?_⟩
+    rw [hc.1]; exact C11_twoStage_bounds st.op st.reg h2 h1 (opPart p) (regPart p) sb hd must
+  · cases hr
 
 theorem C11_step_inv (st : State) (hinv : C11_Inv st) (e : Event) : C11_Inv (step st e).1 := by
   cases e with
@@ -166,11 +140,7 @@ theorem C11_step_inv (st : State) (hinv : C11_Inv st) (e : Event) : C11_Inv (ste
   | drop now => exact ⟨mgrInv_drop _ hinv.1 _ _, mgrInv_drop _ hinv.2 _ _⟩
 
 theorem C11_calc_sb (st : State) (sb : SystemBounds) (p : Option (Proposal × Bool)) (must : Bool) :
-    (calcPower st sb p must).1.sb = st.sb := by
-  unfold calcPower
-  cases p with
-  | none => rfl
-  | some qb => obtain ⟨q, b⟩ := qb; cases b <;> rfl
+    (calcPower st sb p must).1.sb = st.sb := rfl
 
 /-- Every event handler: what it sends is the sum of the (reported) targets and lies in the latest bounds. -/
 theorem C11_step_good (st : State) (hinv : C11_Inv st) (e : Event) :
@@ -227,7 +197,7 @@ theorem C11_full : C11_statement :=
   fun es => C11_all_histories es State.init ⟨mgrInv_init, mgrInv_init⟩
 
 /-! Non-vacuity: the history of the original defect — op proposal 50 W, regular proposal 5 W, then
-the bounds shrink to [-100, 40] — emits 50, 55 and then 40 = 5 + 35, all in bounds. -/
+the bounds shrink to [-100, 40] — emits 50, 55 and then 40 = 0 + 40 … see the examples (operating point first). -/
 def C11_exHist : List Event :=
   [.bounds ⟨some ⟨-100, 100⟩, none⟩,
    .proposal { prio := 1, src := "o", pref := some 50, lo := none, hi := none, created := 0 } true,
@@ -235,5 +205,5 @@ def C11_exHist : List Event :=
    .bounds ⟨some ⟨-100, 40⟩, none⟩]
 
 example : (run State.init C11_exHist).2 = [none, some 50, some 55, some 40] := by decide +kernel
-example : (run State.init C11_exHist).1.reg.last = some 5 ∧ (run State.init C11_exHist).1.op.last = some 35 := by
+example : (run State.init C11_exHist).1.reg.last = some 0 ∧ (run State.init C11_exHist).1.op.last = some 40 := by
   decide +kernel
